@@ -191,6 +191,10 @@ def run_case(case):
 
 def main():
     req = json.load(sys.stdin)
+    # EasyFEA prints to stdout (Terminal.MyPrint...): keep the JSON channel clean
+    import io as _io
+    real_stdout = sys.stdout
+    sys.stdout = _io.StringIO()
     out = []
     for case in req["cases"]:
         try:
@@ -199,7 +203,9 @@ def main():
             import traceback
             out.append({"id": case["id"], "error": "%s: %s" % (type(ex).__name__, ex),
                         "trace": traceback.format_exc()[-1500:], "assemblies": [], "cache": [], "prop_fail": None})
-    json.dump({"results": out}, sys.stdout)
+    sys.stdout = real_stdout
+    real_stdout.write("\n@@JSON@@" + json.dumps({"results": out}) + "\n")
+    real_stdout.flush()
 
 
 if __name__ == "__main__":
